@@ -351,6 +351,22 @@ func init() {
 		}
 		panic(unsupported("Truncate by other than a second"))
 	}
+	I["(time.Time).Round"] = func(p *Path, a []Value, _ *ssa.CallCommon) Value {
+		t := a[0].(TimeVal)
+		d, ok := termOf(a[1]).constInt64()
+		if !ok {
+			panic(unsupported("Round with symbolic duration"))
+		}
+		if d <= 0 {
+			return t
+		}
+		if d == 1e9 {
+			// halfway values round up
+			up := mkIte(mkLe(mkInt(500000000), t.nsec), mkInt(1), mkInt(0))
+			return TimeVal{sec: mkAdd(t.sec, up), nsec: mkInt(0), loc: t.loc}
+		}
+		panic(unsupported("Round by other than a second"))
+	}
 	opaqueStr := func(what string) intrinsicFn {
 		return func(p *Path, a []Value, _ *ssa.CallCommon) Value { return p.fresh("opaque_"+what, SStr) }
 	}
